@@ -357,9 +357,11 @@ def rule_lean(form_line):
 
 VEX_REG_CLASSES = {"rvm": (0x72, 0x75), "rm": (0x68, 0x6B), "rvmi": (0x7A, 0x7C), "rmi": (0x6F, 0x71),
                    # legacy space: ExtRm, ExtRm_P, X86Rm, X86Rm_NoSize ([reg, rm]); X86Mr, X86Mr_NoSize ([rm, reg]); ExtRmi, ExtRmi_P ([reg, rm, imm8])
-                   "lrm": (0x4A, 0x4D, 0x14, 0x16), "lmr": (0x17, 0x18), "lrmi": (0x52, 0x53), "lop": (0x01,)}
+                   "lrm": (0x4A, 0x4D, 0x14, 0x16), "lmr": (0x17, 0x18), "lrmi": (0x52, 0x53), "lop": (0x01,),
+                   # X86Arith, register-register: the class emits the [rm, reg] form; 8-bit operands in both kinds (gpb, gpbhi)
+                   "larith": (0x19,)}
 SHAPE_ROLES = {"rvm": ["reg", "vvvv", "rm"], "rm": ["reg", "rm"], "rvmi": ["reg", "vvvv", "rm", "imm"], "rmi": ["reg", "rm", "imm"],
-               "lrm": ["reg", "rm"], "lmr": ["rm", "reg"], "lrmi": ["reg", "rm", "imm"], "lop": None}
+               "lrm": ["reg", "rm"], "lmr": ["rm", "reg"], "lrmi": ["reg", "rm", "imm"], "lop": None, "larith": ["rm", "reg"]}
 
 
 def class_rows_lean(kept, rows, chunk=96):
@@ -395,15 +397,17 @@ def class_rows_lean(kept, rows, chunk=96):
                     if o["imm"] != 8:
                         okf = False
                     continue
-                if o["reg"] not in CLASS or len(CLASS[o["reg"]]) != 1 or o["implicit"]:
+                if o["reg"] not in CLASS or (len(CLASS[o["reg"]]) != 1 and shape != "larith") or o["implicit"]:
                     okf = False
                     break
-                kinds.append(CLASS[o["reg"]][0])
+                kinds.append(CLASS[o["reg"]])
             if not okf:
                 continue
             line, _ = translate(f)
-            entries.append('  { name := "%s", enc := %d, mainOp := 0x%s#32, iflags := 0x%s#32, aflags := 0x%s#32, kinds := [%s],\n    rule := %s }' % (
-                f["name"], int(r[1]), r[2], r[4], r[5], ", ".join(KIND_LEAN[k] for k in kinds), rule_lean(line)))
+            import itertools
+            for combo in itertools.product(*kinds):
+                entries.append('  { name := "%s", enc := %d, mainOp := 0x%s#32, iflags := 0x%s#32, aflags := 0x%s#32, kinds := [%s],\n    rule := %s }' % (
+                    f["name"], int(r[1]), r[2], r[4], r[5], ", ".join(KIND_LEAN[k] for k in combo), rule_lean(line)))
         counts[shape] = len(entries)
         nch = 0
         for i in range(0, len(entries), chunk):
